@@ -4,6 +4,7 @@ go 1.23.12
 
 require (
 	github.com/prometheus/client_golang v1.23.0
+	github.com/prometheus/client_model v0.6.2
 	github.com/saucelabs/forwarder v0.0.0
 	golang.org/x/net v0.42.0
 	golang.org/x/time v0.12.0
@@ -26,7 +27,6 @@ require (
 	github.com/jcmturner/rpc/v2 v2.0.3 // indirect
 	github.com/kevinburke/hostsfile v0.0.0-20220522040509-e5e984885321 // indirect
 	github.com/munnerz/goautoneg v0.0.0-20191010083416-a7dc8b61c822 // indirect
-	github.com/prometheus/client_model v0.6.2 // indirect
 	github.com/prometheus/common v0.65.0 // indirect
 	github.com/prometheus/procfs v0.16.1 // indirect
 	github.com/saucelabs/connfu v0.0.0-20250827100016-6235a7abda4a // indirect
